@@ -1,0 +1,71 @@
+//go:build verif
+
+package bbolt
+
+import (
+	"go.etcd.io/bbolt/internal/common"
+	fl "go.etcd.io/bbolt/internal/freelist"
+)
+
+// verifWriteAt replaces db.ops.writeAt when built with the `verif` tag.
+func (db *DB) verifWriteAt(b []byte, off int64) (int, error) {
+	if n, err := common.VerifIO(db, "write", off, b); err != nil {
+		if n > 0 {
+			_, _ = db.file.WriteAt(b[:n], off)
+		}
+		return n, err
+	}
+	return db.file.WriteAt(b, off)
+}
+
+// verifEvent emits an event carrying the transaction id and a snapshot of the
+// freelist. It must be called while the lock protecting the change is held.
+func (db *DB) verifEvent(name string, txid common.Txid) {
+	if !common.VerifTracing() {
+		return
+	}
+	f := map[string]any{"txid": uint64(txid), "ps": db.pageSize}
+	if db.freelist != nil {
+		free, pend, readers := fl.VerifSnapshot(db.freelist)
+		f["free"] = free
+		f["pend"] = pend
+		f["readers"] = readers
+		f["freeN"] = db.freelist.FreeCount()
+		f["pendN"] = db.freelist.PendingCount()
+	}
+	if db.rwtx != nil && db.rwtx.meta != nil {
+		f["hwm"] = uint64(db.rwtx.meta.Pgid())
+	}
+	if db.data != nil {
+		m := db.meta()
+		f["mtxid"] = uint64(m.Txid())
+		f["mhwm"] = uint64(m.Pgid())
+		f["datasz"] = db.datasz
+	}
+	common.VerifEvent(db, name, f)
+}
+
+// verifMetaEvent describes the meta page a writer is about to publish.
+func (db *DB) verifMetaEvent(m *common.Meta) {
+	if !common.VerifTracing() {
+		return
+	}
+	fr := int64(-1)
+	if m.Freelist() != common.PgidNoFreelist {
+		fr = int64(m.Freelist())
+	}
+	common.VerifEvent(db, "MetaWrite", map[string]any{
+		"txid": uint64(m.Txid()), "slot": uint64(m.Txid() % 2), "root": uint64(m.RootBucket().RootPage()),
+		"freelist": fr, "hwm": uint64(m.Pgid()), "ps": db.pageSize,
+	})
+}
+
+func (db *DB) verifAlloc(txid common.Txid, pgid common.Pgid, n int, fromFree bool) {
+	if !common.VerifTracing() {
+		return
+	}
+	common.VerifEvent(db, "Alloc", map[string]any{
+		"txid": uint64(txid), "pgid": uint64(pgid), "n": n, "fromFree": fromFree,
+		"hwm": uint64(db.rwtx.meta.Pgid()), "datasz": db.datasz,
+	})
+}
